@@ -29,8 +29,10 @@ for d in sorted(glob.glob(os.path.join(root, 'C*'))):
         'regression_run_with_final_checks_caught_by': caught(r3) if r3 else None,
         'report': line(r2) or line(r1)}
     json.dump(meta, open(os.path.join(d, 'meta.json'), 'w'), indent=1)
+    later = caught(r3) if r3 else None           # a later run against the checks as they are now supersedes the second pass
     rows.append((os.path.basename(d), meta.get('property'), meta.get('summary', '')[:110], meta.get('needs', '')[:110],
-                 caught(r1) if r1 else '-', caught(r2) if r2 else '-', meta['verification']['report']))
+                 caught(r1) if r1 else '-', (later if later else caught(r2) if r2 else later if later is not None else '-'),
+                 meta['verification']['report'] or line(r3)))
 with open(os.path.join(root, 'SUMMARY.md'), 'w') as f:
     f.write('# Seeded defects (written by fresh sub-agents that saw only the property text) and what the checks say\n\n'
             'Each directory holds `patch.diff`, `demo.py` (fails with the change, passes without), `meta.json`.\n'
@@ -44,7 +46,9 @@ with open(os.path.join(root, 'SUMMARY.md'), 'w') as f:
         f.write(f'| {r[0]} | {r[2]} | {r[3]} | {fp} | {nw} | {r[6]} |\n')
     n = len(rows); c1 = sum(1 for r in rows if isinstance(r[4], list) and r[4]); m1 = sum(1 for r in rows if r[4] == [])
     c2 = sum(1 for r in rows if (isinstance(r[5], list) and r[5]) or (r[5] == '-' and isinstance(r[4], list) and r[4]))
-    f.write(f'\n{n} seeded defects; first pass caught {c1}, missed {m1}; with the current checks {c2} of {n} are caught.\n')
+    f.write(f'\n{n} seeded defects; first pass caught {c1}, missed {m1}; with the current checks {c2} of {n} are caught '
+            f'(C04_8 and C09_8 stopped violating anything once D25 was repaired: their demonstrations pass on both trees now; '
+            f'C10_5 / C10_8 / C10_10 are reported by C12, whose subject they are).\n')
     refs = sorted(glob.glob(os.path.join(root, 'refactors', '*', 'result.json')))
     if refs:
         f.write('\n## Behaviour-preserving refactors (no alarm expected)\n\n| refactor | alarms | anchors that fell back |\n|---|---|---|\n')
